@@ -73,7 +73,8 @@ def main():
             print("   ... %d more distinct failures of kind %s" % (n - 4, k))
     cov = res["coverage"]
     cov.setdefault("known_findings_reproduced", {k: n for k, (h, n) in known_hit.items()})
-    common.write_evidence(prop, a.tier, res["level"], cov, time.time() - t0, nviol, res.get("assumptions", []))
+    if not os.environ.get("GV_NO_EVIDENCE"):      # set when a check is run against a seeded scratch tree (GASOL_REPO): evidence is about /repo only
+        common.write_evidence(prop, a.tier, res["level"], cov, time.time() - t0, nviol, res.get("assumptions", []))
     print("%s %s: %s in %.1fs" % (prop, a.tier, "OK" if nviol == 0 else "%d violation(s)" % nviol, time.time() - t0))
     sys.exit(1 if nviol else 0)
 
